@@ -81,7 +81,49 @@ class Facts:
         kp = os.path.join(os.path.dirname(os.path.abspath(__file__)), "known_fns.json")
         if not os.path.exists(kp):
             return
-        known = set(json.load(open(kp)))
+        kf = json.load(open(kp))
+        known = set(kf["paths"] if isinstance(kf, dict) else kf)
+        sigs = kf.get("signatures", {}) if isinstance(kf, dict) else {}
+        # rename normalisation: a function the rules know by name is gone and exactly
+        # one new function with the same parent (module / impl) and the same
+        # signature appeared -> it is the same function under a new name
+        self.renamed = []
+        for old in sorted(known - set(self.by_path)):
+            if old not in sigs or old.split("::")[-1].startswith("{"):
+                continue
+            parent = old.rsplit("::", 1)[0]
+            cands = [bs[0] for p_, bs in self.by_path.items() if p_ not in known and len(bs) == 1 and p_.rsplit("::", 1)[0] == parent and bs[0].get("kind") in ("Fn", "AssocFn")
+                     and "inputs" in bs[0] and [[self.types[i] for i in bs[0]["inputs"]], (self.types[bs[0]["output"]] if bs[0].get("output") is not None else None)] == sigs[old]]
+            if len(cands) == 1:
+                b_ = cands[0]
+                newp = b_["path"]
+                del self.by_path[newp]
+                b_["orig_path"] = newp
+                b_["path"] = old
+                self.by_path[old] = [b_]
+                self.renamed.append((old, newp))
+
+                def fix(v):
+                    if isinstance(v, str):
+                        if v == newp:
+                            return old
+                        if v.startswith(newp + "::"):
+                            return old + v[len(newp):]
+                    return v
+                # items nested in the renamed function (closures, inner fns) follow it
+                for bb in self.bodies:
+                    if bb["path"].startswith(newp + "::"):
+                        np_ = fix(bb["path"])
+                        if np_ not in self.by_path:
+                            self.by_path.pop(bb["path"], None)
+                            bb["orig_path"] = bb["path"]
+                            bb["path"] = np_
+                            self.by_path[np_] = [bb]
+                for bb in self.bodies:
+                    for n in bb["_nodes"]:
+                        for key in ("fn", "impl", "path", "def"):
+                            if key in n:
+                                n[key] = fix(n[key])
         new = {p: bs[0] for p, bs in self.by_path.items() if p not in known and len(bs) == 1 and not p.split("::")[-1].startswith("{")
                and bs[0].get("kind") in ("Fn", "AssocFn") and not bs[0].get("impl_trait")}
         if not new:
